@@ -1158,6 +1158,11 @@ func (g *gen) groupApply(n int) {
 		if g.chance(0.4) {
 			f = 0
 		}
+		if g.chance(0.1) {
+			// Apply splits and joins bytes: ill-formed UTF-8 must come back byte for byte (seeded change
+			// C10i: a detour through []rune turns it into U+FFFD)
+			t = g.dirty(t)
+		}
 		g.emit("prog", strings.Join([]string{g.editStep(t, o), fmt.Sprintf("apply,0,%d,%s", f, g.optsArg(o)), "linecount,0"}, ";"))
 	}
 }
@@ -1682,6 +1687,37 @@ func (g *gen) groupRel(n int) {
 				}
 				return fmt.Sprintf("table,%%d,%s,%s,%d,=", encInt(p), encTable(d), w)
 			})
+		}
+		if g.chance(0.25) {
+			// a selection (empty ones included), an edit THROUGH the selection, String and Commit: the
+			// byte offsets recorded for the selection must be those of the same clusters in both texts
+			// (seeded change C03j: rune index used as byte offset for an empty selection)
+			var x relText
+			g.relWord(&x, 3)
+			a, b := g.pos(cc), g.pos(cc)
+			if g.chance(0.4) {
+				b = a
+			}
+			sel := fmt.Sprintf("chars,%%d,%s,%s", encInt(a), encInt(b))
+			switch g.r.Intn(4) {
+			case 0:
+				sel = fmt.Sprintf("charsfrom,%%d,%s", encInt(a))
+			case 1:
+				sel = fmt.Sprintf("charsto,%%d,%s", encInt(a))
+			}
+			half := func(base int, r map[string]string) []string {
+				var ed string
+				switch g.r.Intn(1) {
+				default:
+					ed = fmt.Sprintf("insert,%d,%s,%s", base+1, encInt(0), encText(x.str(r)))
+				}
+				return []string{g.editStep(t.str(r), o), fmt.Sprintf(sel, base), ed,
+					fmt.Sprintf("string,%d", base+2), fmt.Sprintf("commit,%d", base+2),
+					fmt.Sprintf("charcount,%d", base+4), fmt.Sprintf("linecount,%d", base+4)}
+			}
+			steps := append(half(0, nil), half(7, rho)...)
+			g.emit("rel", strings.Join(rhoEnc, "/"), strings.Join(steps, ";"))
+			continue
 		}
 		steps := []string{g.editStep(t.str(nil), o), fmt.Sprintf(s1, 0), "charcount,1", "linecount,1",
 			g.editStep(t.str(rho), o), fmt.Sprintf(s2, 4), "charcount,5", "linecount,5"}
